@@ -48,10 +48,23 @@ package silence
 
 // decodeState reads length-delimited protobuf records; the codec is outside the verified subset. Assumed (codec axiom):
 // on success a fresh map of fresh, well-formed silences stored under their own id.
+//@ uf isEOF(error) bool
 //@ func decodeState
-//@   trusted
-//@   ensures result1 == nil ==> result0 != nil && fresh(result0) && (forall k string :: k in result0 ==> wfSil(result0[k]) && result0[k].Silence.Id == k && fresh(result0[k]) && fresh(result0[k].Silence))
-//@   ensures result1 != nil ==> result0 == nil
+//@   props C09 C11
+//@   assumes ErrInvalidState != nil
+//@   ensures [silences-well-formed-and-filed-under-their-id] result1 == nil ==> result0 != nil && fresh(result0) && (forall k string :: k in result0 ==> wfSil(result0[k]) && result0[k].Silence.Id == k && fresh(result0[k]) && fresh(result0[k].Silence))
+//@   ensures [error-yields-no-state] result1 != nil ==> result0 == nil
+//@   at call errors.Is assert [end-of-input-test] arg0 == ret("protodelim.UnmarshalFrom") && arg1 == io.EOF
+//@   after call errors.Is assume res0 == isEOF(arg0)
+//@   ensures [only-a-clean-end-of-input-completes-the-state] result1 == nil ==> called("protodelim.UnmarshalFrom") && isEOF(ret("protodelim.UnmarshalFrom"))
+//@   ensures [any-other-read-error-is-reported] called("protodelim.UnmarshalFrom") && ret("protodelim.UnmarshalFrom") != nil && !isEOF(ret("protodelim.UnmarshalFrom")) ==> result1 != nil
+//@   at call postprocessUnmarshalledSilence assert [legacy-form-upgraded-before-filing] arg0 != nil
+//@   after call protodelim.UnmarshalFrom assume s.Silence != nil ==> (s.Silence.MatcherSets == nil || fresh(s.Silence.MatcherSets)) && (s.Silence.Matchers == nil || fresh(s.Silence.Matchers))
+//@   ensures [a-decoded-silence-is-filed] result1 == nil && countnil0("protodelim.UnmarshalFrom") > 0 ==> len(result0) > 0
+//@   ensures [every-decoded-silence-is-upgraded-from-the-legacy-form] result1 == nil ==> count("postprocessUnmarshalledSilence") == countnil0("protodelim.UnmarshalFrom")
+//@   loop 1 invariant countnil0("protodelim.UnmarshalFrom") >= 0 && (countnil0("protodelim.UnmarshalFrom") > 0 ==> len(st) > 0) && count("postprocessUnmarshalledSilence") == countnil0("protodelim.UnmarshalFrom")
+//@   loop 1 invariant st != nil && fresh(st) && (forall k string :: k in st ==> allocated(st[k]) && wfSil(st[k]) && st[k].Silence.Id == k && fresh(st[k]) && fresh(st[k].Silence) && allocated(st[k].Silence))
+//@   noeffect bufio.NewReader errors.Is
 //@   assigns nothing
 
 //@ spec wfMatchers(sil *pb.Silence) bool = forall i int :: 0 <= i && i < len(sil.MatcherSets) ==>
